@@ -12,6 +12,8 @@ FALSIFIED_KINDS = [
     "possible bit shift underflow/overflow", "recommendation not met", "loop invariant",
     "unreachable", "index out of bounds", "possible", "might fail", "requires not satisfied",
 ]
+# units whose single loop query is heavy (measured: chain_write needs about 60 s of solver time)
+RLIMIT = {"chain_write": "400"}
 RESOURCE_KINDS = ["rlimit", "resource limit", "timed out", "timeout"]
 
 
@@ -34,7 +36,7 @@ def run_unit(unit, repo=None, keep=False):
     try:
         f = os.path.join(d, unit + ".rs")
         open(f, "w").write(gen)
-        cmd = ["verus", f, "--output-json", "--time", "--rlimit", "60", "--num-threads", "8"]
+        cmd = ["verus", f, "--output-json", "--time", "--rlimit", RLIMIT.get(unit, "60"), "--num-threads", "8"]
         try:
             p = subprocess.run(cmd, stdout=subprocess.PIPE, stderr=subprocess.PIPE, text=True, timeout=900, errors="replace")
         except subprocess.TimeoutExpired:
